@@ -1151,6 +1151,51 @@ func TestVerifEXT4Stepper(t *testing.T) {
 	}
 }
 
+// TestVerifEXT4RegTable enumerates registration call sequences completely:
+// every sequence of VERIF_DEPTH calls of Manager.Add (2 ids x {eth0, eth1,
+// unknown} x ports {0, 53}) and Manager.ListenConfig (2 ids x the 7 prefixes of
+// at most two path bits x masked / unmasked); with depth 3 the first call is a
+// successful Add.
+func TestVerifEXT4RegTable(t *testing.T) {
+	out := vhOpen(t)
+	r := rand.New(rand.NewSource(vhSeed()*31337 + 9))
+	var calls []ext4Step
+	for _, id := range []string{"a", "b"} {
+		for _, ifn := range []string{"eth0", "eth1", "nx"} {
+			for _, port := range []int{0, 53} {
+				calls = append(calls, ext4Step{A: "Add", ID: id, Ifn: ifn, Port: port})
+			}
+		}
+		for _, p := range [][]int{{}, {0}, {1}, {0, 0}, {0, 1}, {1, 0}, {1, 1}} {
+			for _, m := range []bool{true, false} {
+				calls = append(calls, ext4Step{A: "ListenConfig", ID: id, Pfx: p, Masked: m})
+			}
+		}
+	}
+	depth := vhEnvInt("VERIF_DEPTH", 2)
+	n := 100000
+	fams := []string{"lo4", "v4", "v6"}
+	var rec func(prefix []ext4Step)
+	rec = func(prefix []ext4Step) {
+		if len(prefix) == depth {
+			n++
+			w := ext4NewWorld(t, out, r, n, "table", fams[r.Intn(len(fams))], 1)
+			for _, s := range prefix {
+				w.exec(s)
+			}
+			w.finish()
+			return
+		}
+		for _, c := range calls {
+			if depth >= 3 && len(prefix) == 0 && (c.A != "Add" || c.Ifn == "nx") {
+				continue
+			}
+			rec(append(append([]ext4Step{}, prefix...), c))
+		}
+	}
+	rec(nil)
+}
+
 // ---------------------------------------------------------------- end to end
 
 type ext4Line struct {
